@@ -39,6 +39,15 @@ def pretty_json(entry):
     return json.dumps(entry, sort_keys=True, indent=4, separators=(',', ': '))
 
 
+def bool_to_dosini(value):
+    # type: (Union[bool, str]) -> str
+    """Text of a boolean option: booleans are lower-cased (true/false); anything else is a reference to
+    a variable (e.g. %(DoResolve)s) whose name must be written as is"""
+    if isinstance(value, bool):
+        return str(value).lower()
+    return str(value)
+
+
 def dict_to_dosini(dictionary):
     # type: (Dict[str, Dict[str, str]]) -> configparser.ConfigParser
     cfg = FlowConfigParser()
@@ -1847,9 +1856,9 @@ class Dosini(object):
                 'repeatRetries': lambda key, value: {key: str(value)},
                 'maxRestarts': lambda key, value: ({'max-restarts': str(value)} if value is not None else {}),
                 'replicate': lambda key, value: {key: str(value)},
-                'aggregate': lambda key, value: {key: str(value).lower()},
+                'aggregate': lambda key, value: {key: bool_to_dosini(value)},
                 'repeatInterval': lambda key, value: {'repeat-interval': str(value)},
-                'isMigratable': lambda key, value: {key: str(value).lower()},
+                'isMigratable': lambda key, value: {key: bool_to_dosini(value)},
             }
         )
 
@@ -1860,7 +1869,7 @@ class Dosini(object):
                 required={
                 },
                 optional={
-                    'disable': lambda key, value: {'optimizerDisable': str(value).lower()},
+                    'disable': lambda key, value: {'optimizerDisable': bool_to_dosini(value)},
                     'exploitChance': lambda key, value: {'optimizerExploitChance': str(value)},
                     'exploitTarget': lambda key, value: {'optimizerExploitTarget': str(value)},
                     'exploitTargetLow': lambda key, value: {'optimizerExploitTargetLow': str(value)},
@@ -1874,8 +1883,8 @@ class Dosini(object):
                 comp['workflowAttributes'].get('memoization', {}).get('disable', {}),
                 required={},
                 optional={
-                    'strong': lambda key, value: {'memoization-disable-strong': str(value).lower()},
-                    'fuzzy': lambda key, value: {'memoization-disable-fuzzy': str(value).lower()},}))
+                    'strong': lambda key, value: {'memoization-disable-strong': bool_to_dosini(value)},
+                    'fuzzy': lambda key, value: {'memoization-disable-fuzzy': bool_to_dosini(value)},}))
         flat.update(
             cls._translate_dict_to_dict(
                 comp['workflowAttributes'].get('memoization', {}),
@@ -2061,7 +2070,7 @@ class Dosini(object):
 
         def bool_to_str(key, value):
             # type: (str, bool) -> Dict[str, str]
-            return {key: str(value).lower()}
+            return {key: bool_to_dosini(value)}
 
         key = 'command'
 
